@@ -38,7 +38,7 @@ GEOMS = [None, {"type": "Point", "coordinates": [1, 2]}, {"type": "LineString", 
 KINDS = ["float", "int", "bool", "str", "date", "datetime", "timedelta", "object", "bytes", "ustr"]
 BYTES = ["", "Oslo", "\xc5lesund", "Troms\xf8", "\xff\xfe", "a b"]          # latin-1 images of the byte strings
 USTRS = ["", "a", "hello", "ä", "中文", "x y"]
-OPTS = [None, None, None, 1, 2, 3, 5, 10, 20, 200]
+OPTS = [None, None, None, 1, 2, 3, 5, 10, 20, 200, "inf"]      # "inf": math.inf, the library's own spelling of "no limit"
 OPTS0 = OPTS + [0]        # 0 is falsy: "use the default", like None
 
 
@@ -97,7 +97,7 @@ def gen_case(rng, tier, ctrl=False):
             kind = rng.choice(KINDS)
             cols.append({"name": nm, "kind": kind, "vals": gen_vals(rng, kind, n, ctrl)})
         case = {"op": "frame", "n": n, "cols": cols, "settings": settings, "how": rng.choice(["to_string", "to_string", "str", "repr", "print_"]),
-                "max_rows": rng.choice(OPTS0), "max_width": rng.choice(OPTS0 + [40, 80]), "truncate_width": rng.choice(OPTS0), "ctrl": ctrl}
+                "max_rows": rng.choice(OPTS0), "max_width": rng.choice(OPTS0 + [40, 80]), "truncate_width": rng.choice([o for o in OPTS0 if o != "inf"]), "ctrl": ctrl}      # (truncate_width=inf asks for cells as they are, line breaks included)
         if rng.random() < 0.3 and ncol > 0:
             case["geo"] = [rng.choice(GEOMS) for _ in range(n)]
             case["geo_pos"] = rng.randint(0, ncol)
@@ -108,7 +108,7 @@ def gen_case(rng, tier, ctrl=False):
         n = rng.choice([0, 1, 2, 3, 7, 30])
         kind = rng.choice(KINDS)
         return {"op": "vector", "kind": kind, "vals": gen_vals(rng, kind, n, ctrl), "settings": settings, "how": rng.choice(["to_string", "str", "repr"]),
-                "max_elements": rng.choice([None, None, 1, 2, 5, 100]), "ctrl": ctrl}
+                "max_elements": rng.choice([None, None, 1, 2, 5, 100, "inf"]), "ctrl": ctrl}
     n = rng.choice([0, 1, 2, 3, 6])
     items = []
     for _ in range(n):
@@ -117,7 +117,7 @@ def gen_case(rng, tier, ctrl=False):
             d[k] = rng.choice([1, 2.5, None, "x", "中文", "x\ny", [1, {"z": None}], True, "__nan__", "__inf__", {"deep": ["__-inf__"]}] + (CTRL if ctrl else []))
         items.append(d)
     return {"op": "lod", "items": items, "settings": settings, "how": rng.choice(["to_string", "str", "repr", "print_"]),
-            "max_items": rng.choice([None, None, 1, 2, 10]), "ctrl": ctrl}
+            "max_items": rng.choice([None, None, 1, 2, 10, "inf"]), "ctrl": ctrl}
 
 
 def gen_cases(ctx):
@@ -200,6 +200,14 @@ def widths_of(strings):
 
 
 def impl(case):
+    res = impl_(dict(case, **{k: (math.inf if case.get(k) == "inf" else case.get(k)) for k in ("max_rows", "max_width", "truncate_width", "max_elements", "max_items") if k in case}))
+    # (what goes on to the layout model is a number: "no limit" is a limit nothing reaches)
+    if isinstance(res.get("eff"), dict):
+        res["eff"] = {k: (10 ** 9 if v == math.inf else v) for k, v in res["eff"].items()}
+    return res
+
+
+def impl_(case):
     import dataiter as di
     from dataiter import util
     os.environ.pop("COLUMNS", None)
@@ -289,7 +297,7 @@ def impl(case):
             res["label"] = str(v.dtype_label)
             res["length"] = int(v.length)
             try:
-                res["elems"] = [str(x) for x in v[:me].to_strings(pad=True)]
+                res["elems"] = [str(x) for x in v[:min(len(v), me)].to_strings(pad=True)]
             except Exception as e:
                 res["cells_err"] = f"{type(e).__name__}: {e}"
         else:
